@@ -80,6 +80,9 @@ def cases(tier, seed):
     out.append(('interval_size_spelled_in_minutes', dict(shape='two_node', kw=dict(T=4), split='2h', coupled=('forms', 'size', '120min'))))
     out.append(('interval_size_day_vs_24h', dict(shape='uncoupled', kw=dict(T=4, freq='12h', wacc=True), split='d', coupled=('forms', 'size', '24h'))))
     out.append(('prices_as_dict_of_arrays', dict(shape='uncoupled', kw=dict(T=4, wacc=True), split='2h', coupled=('forms', 'prices', 'dict'))))
+    # sequences of calls on the same objects (decided with C10's history machinery: the final problem equals that of fresh objects)
+    # -- interval grids of a split set-up on a grid object that carries the discount factors of an earlier call
+    out.append(('history_split_after_an_earlier_setup_on_the_same_grid', common.delegated('c10', pf='dicts', final='h_split', histories=[['same'], ['h', 'same']])))
     return out
 
 
